@@ -1,4 +1,4 @@
-CONSTANTS NSteps = 4 AcqW <- AcqT TryW <- TryT RelW <- RelT Timeouts <- TimeoutsMC MaxAcq = 3 MaxTry = 2 MaxRel = 2
+CONSTANTS NSteps = 4 MinSteps = 4 AcqW <- AcqT TryW <- TryT RelW <- RelT Timeouts <- TimeoutsMC MaxAcq = 3 MaxTry = 2 MaxRel = 2
 SPECIFICATION Spec
 INVARIANT EmitScen
 CHECK_DEADLOCK FALSE
